@@ -950,6 +950,15 @@ func ruleC12Closed(c *Checker) {
 				}
 				c.pass(R, name, "closed builder panics", p.Pos(fn.Pos()), "through helper "+p.FuncName(guards[0].Common().StaticCallee())+", which returns only for an open builder and panics otherwise")
 				c.check(allPast, R, name, "effects after the closed test", pos, "every field write / external call is dominated by the call to the closed-builder guard helper", "an effect can happen before (or without) the closed-builder test")
+				for i, r := range returnsOf(fn) {
+					dom := false
+					for _, g := range guards {
+						if dominates(g, r) {
+							dom = true
+						}
+					}
+					c.check(dom, R, name, fmt.Sprintf("return %d after the closed test", i), p.Pos(r.Pos()), "dominated by the guard helper call", "the method can return before the closed-builder test: after a failed build or Close a request is answered as if it had been served")
+				}
 				continue
 			}
 			// pure delegation: every effect is a call to an exported Builder method
@@ -1003,6 +1012,11 @@ func ruleC12Closed(c *Checker) {
 			pos = p.Pos(bad.Pos())
 		}
 		c.check(allPast, R, name, "effects after the closed test", pos, "every field write / external call lies past the not-closed edge", "an effect can happen before (or without) the closed-builder test")
+		// ... and so does every answer: a return taken before the test tells the caller of a closed or failed
+		// builder that its request was served
+		for i, r := range returnsOf(fn) {
+			c.check(guarded(r.Block(), closedF), R, name, fmt.Sprintf("return %d after the closed test", i), p.Pos(r.Pos()), "past the not-closed edge", "the method can return before the closed-builder test (a shortcut placed in front of it): after a failed build or Close, a request that hits the shortcut is answered as if it had been served instead of being refused")
+		}
 	}
 }
 
